@@ -92,3 +92,42 @@ MUTANTS.update({
     ('ts-rounded', [(CL, 'to_send = "%s %s %d" % (metric, value, datapoint[0])', 'to_send = "%s %s %d" % (metric, value, round(datapoint[0]))')]),
   ],
 })
+
+RT = 'lib/carbon/routers.py'
+RR = 'lib/carbon/relayrules.py'
+AR = 'lib/carbon/aggregator/rules.py'
+ST = 'lib/carbon/storage.py'
+W = 'lib/carbon/writer.py'
+MUTANTS.update({
+  'C16': [
+    ('ignore-continue', [(RT, "        if not rule.continue_matching:\n          return", "        return")]),
+    ('always-continue', [(RT, "        if not rule.continue_matching:\n          return", "        if False:\n          return")]),
+    ('default-first', [(RR, "  rules.append(defaultRule)\n  return rules", "  rules.insert(0, defaultRule)\n  return rules")]),
+    ('yield-unconfigured', [(RT, "          if destination in self.destinations:\n            yield destination", "          if True:\n            yield destination")]),
+    ('hash-raw-metric', [(RT, "    for resolved_metric in resolved_metrics:\n      for destination in self.hash_router.getDestinations(resolved_metric):", "    for resolved_metric in resolved_metrics:\n      for destination in self.hash_router.getDestinations(key):")]),
+    ('first-agg-rule-only', [(RT, "      else:\n        resolved_metrics.append(aggregate_metric)\n", "      else:\n        resolved_metrics.append(aggregate_metric)\n        break\n")]),
+    ('case-sensitive', [(RR, "regex = re.compile(pattern, re.I)", "regex = re.compile(pattern)")]),
+    ('regex-match-not-search', [(RR, "condition=regex.search, destinations", "condition=regex.match, destinations")]),
+    ('agg-regex-no-dollar', [(AR, "regex_pattern = '\\\\.'.join(regex_pattern_parts) + '$'", "regex_pattern = '\\\\.'.join(regex_pattern_parts)")]),
+    ('field-spans-dots', [(AR, "regex_part = '%s(?P<%s>[^.]+?)%s' % (pre, field_name, post)", "regex_part = '%s(?P<%s>.+?)%s' % (pre, field_name, post)")]),
+  ],
+  'C19': [
+    ('reversed-schemas', [(W, "      for schema in SCHEMAS:\n        if schema.matches(metric):", "      for schema in list(reversed(SCHEMAS[:-1])) + SCHEMAS[-1:]:\n        if schema.matches(metric):")]),
+    ('no-break', [(W, "          archiveConfig = [archive.getTuple() for archive in schema.archives]\n          break", "          archiveConfig = [archive.getTuple() for archive in schema.archives]")]),
+    ('week-6-days', [(U, "'w': 60 * 60 * 24 * 7,", "'w': 60 * 60 * 24 * 6,")]),
+    ('points-not-divided', [(U, "points = int(match.group(1)) * UnitMultipliers[getUnitString(match.group(2))] / precision", "points = int(match.group(1)) * UnitMultipliers[getUnitString(match.group(2))]")]),
+    ('sections-sorted', [('lib/carbon/conf.py', "    return list(self._ordered_sections)  # return a copy for safety", "    return sorted(self._ordered_sections)  # return a copy for safety")]),
+    ('agg-no-break', [(W, "          xFilesFactor, aggregationMethod = schema.archives\n          break", "          xFilesFactor, aggregationMethod = schema.archives")]),
+    ('match-instead-of-search', [(ST, "    return self.regex.search(metric)", "    return self.regex.match(metric)")]),
+    ('missing-pattern-becomes-default', [(ST, "    else:\n      log.err(\"Schema %s missing 'pattern', skipping\" % section)\n      continue", "    else:\n      mySchema = DefaultSchema(section, archives)")]),
+  ],
+  'C20': [
+    ('no-cap', [(U, "self._tokens = min(self.capacity, self._tokens + delta)", "self._tokens = self._tokens + delta")]),
+    ('timestamp-not-updated', [(U, "      self._tokens = min(self.capacity, self._tokens + delta)\n      self.timestamp = now", "      self._tokens = min(self.capacity, self._tokens + delta)")]),
+    ('blocking-no-deduct', [(U, "      sleep(time_to_sleep)\n\n    self._tokens -= cost\n    return True", "      sleep(time_to_sleep)\n\n    return True")]),
+    ('setcap-adds', [(U, "    self._tokens = delta + self._tokens", "    self._tokens = float(new_capacity) + max(0.0, self._tokens)")]),
+    ('oversleep', [(U, "    seconds_left = seconds_per_token * tokens_needed", "    seconds_left = seconds_per_token * cost * 2")]),
+    ('creates-per-second', [(W, "  fill_rate = float(settings.MAX_CREATES_PER_MINUTE) / 60", "  fill_rate = float(settings.MAX_CREATES_PER_MINUTE)")]),
+    ('update-bucket-nonblocking-ignored', [(W, "      UPDATE_BUCKET.drain(1, blocking=True)", "      UPDATE_BUCKET.drain(1)")]),
+  ],
+})
